@@ -245,11 +245,11 @@ func refQuery(model map[string]interface{}, q idxQuery) []string {
 		}
 		es = append(es, ent{k, id})
 	}
+	// by key, then id - which is the order of key+<00>+id for keys without the separator
+	// byte, and that order also for the keys that contain it (the statement's "sorted by
+	// key" leaves those to the byte order of the entries)
 	sort.Slice(es, func(i, j int) bool {
-		if es[i].key != es[j].key {
-			return es[i].key < es[j].key
-		}
-		return es[i].id < es[j].id
+		return es[i].key+"\x00"+es[i].id < es[j].key+"\x00"+es[j].id
 	})
 	if q.Reverse {
 		for i, j := 0, len(es)-1; i < j; i, j = i+1, j-1 {
@@ -307,6 +307,11 @@ func (e *idxEnv) mutate(r *rand.Rand, ids []string, n int) (idxMut, interface{},
 	k := idxKeys[r.Intn(len(idxKeys))]
 	if r.Intn(6) == 0 {
 		k = "" // nil key
+	}
+	if id == "r" && r.Intn(3) > 0 {
+		// key zz of id r: its index entry is the first one behind every entry whose key
+		// starts with zz<00>q (the bound a reverse scan of that prefix starts from)
+		k = "zz"
 	}
 	k2 := idxKeys[r.Intn(5)]
 	if r.Intn(3) == 0 {
@@ -569,6 +574,7 @@ func idxIDs(h int) []string {
 	ids[3] = "a" // ids that look like keys
 	ids[4] = "ab"
 	ids[5] = "i:d"
+	ids[6] = "r"
 	return ids
 }
 
